@@ -489,7 +489,7 @@ Proof.
     assert (Hr1 : s_recalc (m_f m1) = true) by (rewrite Em1; reflexivity). rewrite Hr1.
     apply (wf_with_sp m1 SF).
     + apply (wf_space_to_import _ _ (get_sp m1 SF) id (set_del true it)); [exact (W1 SF)| |exact Hloc].
-      rewrite Em1, get_with_same. cbn [s_items]. rewrite nth_error_upd_same, Eit. reflexivity.
+      rewrite Em1, get_with_same. cbn [s_items get_sp]. rewrite nth_error_upd_same, Eit. reflexivity.
     + apply wf_others_snoc. exact W1.
   - (* ImportToLocal *)
     cbn [Reindex.step] in H.
@@ -502,9 +502,11 @@ Proof.
     pose proof (delete_in_wf _ _ _ _ W E) as W1.
     destruct (delete_in_ok _ _ _ _ E) as [it0 [Hit0 Em1]]. cbn [get_sp] in Hit0.
     assert (it0 = it) by congruence. subst it0.
-    injection H as Hm Hr. subst m'. rewrite set_sp_with. apply wf_with_sp.
+    injection H as Hm Hr. subst m'.
+    assert (Hr1 : s_recalc (m_f m1) = true) by (rewrite Em1; reflexivity). rewrite Hr1.
+    apply (wf_with_sp m1 SF).
     + apply (wf_space_to_local _ _ (get_sp m1 SF) k (set_del true it)); [exact (W1 SF)| |reflexivity].
-      rewrite Em1, get_with_same. cbn [s_items]. rewrite nth_error_upd_same, Eit. reflexivity.
+      rewrite Em1, get_with_same. cbn [s_items get_sp]. rewrite nth_error_upd_same, Eit. reflexivity.
     + intros s' _. exact (W1 s').
   - (* ItAddGlobal *)
     cbn [Reindex.step] in H. inversion H; subst m'. apply (wf_with_sp m SG).
@@ -513,4 +515,555 @@ Proof.
   - cbn [Reindex.step] in H. inversion H; subst m'. exact W.
   - cbn [Reindex.step] in H. inversion H; subst m'. exact W.
   - cbn [Reindex.step] in H. inversion H; subst m'. exact W.
+Qed.
+
+(* along a history: [run_pref] (stops at the first panic and returns the last state) and [run] *)
+Theorem run_pref_wf : forall h m rets m' rets' b, wf m -> run_pref m h rets = (m', rets', b) -> wf m'.
+Proof.
+  induction h as [|o h IH]; intros m rets m' rets' b W H; cbn [run_pref] in H.
+  - inversion H; subst. exact W.
+  - destruct (mstep m o) as [[m1 r]|w] eqn:E.
+    + exact (IH m1 _ m' rets' b (step_wf _ _ _ _ W E) H).
+    + inversion H; subst. exact W.
+Qed.
+Theorem run_wf : forall h m rets m' rets', wf m -> run m h rets = Ok (m', rets') -> wf m'.
+Proof.
+  induction h as [|o h IH]; intros m rets m' rets' W H; cbn [run] in H.
+  - inversion H; subst. exact W.
+  - destruct (mstep m o) as [[m1 r]|w] eqn:E; [|discriminate].
+    exact (IH m1 _ m' rets' (step_wf _ _ _ _ W E) H).
+Qed.
+
+(* ------------------------------------------------------------------------------------------ *)
+(* every base state built by the checker is well formed *)
+
+Definition cntc (code : N) (l : list (N * N)) : nat := length (filter (fun x => N.eqb (fst x) code) l).
+
+Lemma imp_items_nth code : forall l pos k p it,
+  nth_error (imp_items code pos k l) p = Some it ->
+  exists j fp, nth_error l j = Some (code, fp) /\
+               it = mkItem (pos + N.of_nat p)%N (Some (k + N.of_nat j)%N) false fp /\
+               p = cntc code (firstn j l).
+Proof.
+  induction l as [|[c fp0] l IH]; intros pos k p it H; [destruct p; discriminate|].
+  cbn [imp_items] in H. destruct (N.eqb_spec c code) as [->|Hne].
+  - destruct p as [|p]; cbn [nth_error] in H.
+    + inversion H; subst it. exists 0, fp0. split; [reflexivity|]. split; [|reflexivity].
+      cbn [N.of_nat]. rewrite !N.add_0_r. reflexivity.
+    + destruct (IH _ _ _ _ H) as [j [fp [Hj [-> Hp]]]]. exists (S j), fp. split; [exact Hj|]. split.
+      * f_equal; [lia|f_equal; lia].
+      * unfold cntc in *. cbn [firstn filter fst]. rewrite N.eqb_refl. cbn [length]. congruence.
+  - destruct (IH _ _ _ _ H) as [j [fp [Hj [-> Hp]]]]. exists (S j), fp. split; [exact Hj|]. split.
+    + f_equal. f_equal. lia.
+    + unfold cntc in *. cbn [firstn filter fst]. destruct (N.eqb_spec c code); [contradiction|]. exact Hp.
+Qed.
+
+Lemma imp_items_cover code : forall l pos k j fp, nth_error l j = Some (code, fp) ->
+  exists p it, nth_error (imp_items code pos k l) p = Some it /\ it_imp it = Some (k + N.of_nat j)%N.
+Proof.
+  induction l as [|[c fp0] l IH]; intros pos k j fp H; [destruct j; discriminate|].
+  cbn [imp_items]. destruct j as [|j]; cbn [nth_error] in H.
+  - inversion H; subst. rewrite N.eqb_refl. exists 0. eexists. split; [reflexivity|]. cbn. f_equal. lia.
+  - destruct (IH (if N.eqb c code then pos + 1 else pos)%N (k + 1)%N j fp H) as [p [it [Hp Hi]]].
+    destruct (N.eqb c code).
+    + exists (S p), it. split; [exact Hp|]. rewrite Hi. f_equal. lia.
+    + exists p, it. split; [exact Hp|]. rewrite Hi. f_equal. lia.
+Qed.
+
+Lemma loc_items_nth : forall l pos p it,
+  nth_error (loc_items pos l) p = Some it -> exists fp, it = mkItem (pos + N.of_nat p)%N None false fp.
+Proof.
+  induction l as [|fp0 l IH]; intros pos p it H; [destruct p; discriminate|].
+  cbn [loc_items] in H. destruct p as [|p]; cbn [nth_error] in H.
+  - inversion H. exists fp0. f_equal. lia.
+  - destruct (IH _ _ _ H) as [fp ->]. exists fp. f_equal. lia.
+Qed.
+
+Lemma nth_error_app_cases {A} (a b : list A) p x :
+  nth_error (a ++ b) p = Some x ->
+  (p < length a /\ nth_error a p = Some x) \/ (length a <= p /\ nth_error b (p - length a) = Some x).
+Proof.
+  intros H. destruct (Nat.lt_ge_cases p (length a)) as [Hlt|Hge].
+  - left. split; [exact Hlt|]. rewrite nth_error_app1 in H by exact Hlt. exact H.
+  - right. split; [exact Hge|]. rewrite nth_error_app2 in H by exact Hge. exact H.
+Qed.
+
+Lemma wf_mk_space code imps locs :
+  wf_space code (map (fun x => mkImp (fst x) false (snd x)) imps) (mk_space code imps locs).
+Proof.
+  unfold mk_space. set (is := imp_items code 0 0 imps).
+  assert (Him : forall p it, nth_error is p = Some it ->
+            exists j fp, nth_error imps j = Some (code, fp) /\ it = mkItem (N.of_nat p) (Some (N.of_nat j)) false fp /\
+                         p = cntc code (firstn j imps)).
+  { intros p it H. destruct (imp_items_nth _ _ _ _ _ _ H) as [j [fp [H1 [H2 H3]]]]. exists j, fp.
+    rewrite !N.add_0_l in H2. auto. }
+  assert (Hlo : forall p it, nth_error (loc_items (lenN is) locs) p = Some it ->
+            exists fp, it = mkItem (N.of_nat (length is + p)) None false fp).
+  { intros p it H. destruct (loc_items_nth _ _ _ _ H) as [fp ->]. exists fp. f_equal. unfold lenN. lia. }
+  constructor; cbn [s_items s_num s_added s_recalc].
+  - intros p it H. apply nth_error_app_cases in H as [[Hp H]|[Hp H]].
+    + destruct (Him _ _ H) as [j [fp [_ [-> _]]]]. reflexivity.
+    + destruct (Hlo _ _ H) as [fp ->]. cbn. f_equal. lia.
+  - lia.
+  - unfold origN. cbn [s_num s_added]. rewrite app_length. unfold lenN. lia.
+  - intros p it k H Hk. apply nth_error_app_cases in H as [[Hp H]|[Hp H]].
+    + destruct (Him _ _ H) as [j [fp [Hj [-> _]]]]. cbn in Hk. inversion Hk; subst k. cbn [it_del it_fp].
+      unfold nthN. rewrite Nat2N.id. rewrite (map_nth_error _ _ _ Hj). reflexivity.
+    + destruct (Hlo _ _ H) as [fp ->]. discriminate.
+  - intros p q a b k Hp Hq Ha Hb.
+    apply nth_error_app_cases in Hp as [[Hp1 Hp]|[Hp1 Hp]]; [|destruct (Hlo _ _ Hp) as [fp ->]; discriminate].
+    apply nth_error_app_cases in Hq as [[Hq1 Hq]|[Hq1 Hq]]; [|destruct (Hlo _ _ Hq) as [fp ->]; discriminate].
+    destruct (Him _ _ Hp) as [j [fp [_ [-> Ej]]]]. destruct (Him _ _ Hq) as [j' [fp' [_ [-> Ej']]]].
+    cbn in Ha, Hb. assert (j = j') by (rewrite <- Hb in Ha; inversion Ha; lia). subst j'. congruence.
+  - intros k im Hk Hsp Hd. unfold nthN in Hk. rewrite nth_error_map in Hk.
+    destruct (nth_error imps (N.to_nat k)) as [[c fp]|] eqn:E; [|discriminate].
+    cbn in Hk. inversion Hk; subst im. cbn in Hsp. subst c.
+    destruct (imp_items_cover code imps 0%N 0%N _ _ E) as [p [it [Hp Hi]]].
+    exists p, it. split.
+    + rewrite nth_error_app1; [exact Hp|]. apply nth_error_Some. unfold is. rewrite Hp. discriminate.
+    + rewrite Hi. f_equal. lia.
+  - intros _. split; [reflexivity|]. intros p it H.
+    replace (N.to_nat (lenN is)) with (length is) by (unfold lenN; lia).
+    apply nth_error_app_cases in H as [[Hp H]|[Hp H]].
+    + destruct (Him _ _ H) as [j [fp [_ [-> _]]]]. split; [reflexivity|]. split; [intros _; exact Hp|reflexivity].
+    + destruct (Hlo _ _ H) as [fp ->]. split; [reflexivity|]. split; [discriminate|intros; lia].
+Qed.
+
+Theorem wf_mk_base (c : rcase) : wf (mk_base c).
+Proof. intros s. destruct s; apply wf_mk_space. Qed.
+
+(* every state the checker's [final_model] can be is well formed *)
+Theorem wf_final_model (c : rcase) : wf (final_model c).
+Proof.
+  unfold final_model. destruct (run_pref (mk_base c) (h_ops c) []) as [[m rets] b] eqn:E.
+  exact (run_pref_wf _ _ _ _ _ _ (wf_mk_base c) E).
+Qed.
+
+(* ------------------------------------------------------------------------------------------ *)
+(* 2. the known classes D02 / D06 / D26 as predicates on the state *)
+
+Definition live_ks (l : list item) : list N :=
+  flat_map (fun i => match it_imp i with Some k => if it_del i then [] else [k] | None => [] end) l.
+Definition ispace_m (m : mst) (x : sp) : list item * list (N * N) :=
+  match index_space (get_sp m x) with Ok r => r | Panic _ => ([], []) end.
+(* not D02: the import entries of the live import items of the index space come in increasing order *)
+Definition okD02 (x : sp) (m : mst) : bool := increasing (live_ks (fst (ispace_m m x))).
+(* not D06: no deleted import item in the later region *)
+Definition okD06 (x : sp) (m : mst) : bool :=
+  negb (existsb (fun i => is_import i && it_del i) (skipn (origN (get_sp m x)) (s_items (get_sp m x)))).
+(* not D26: no deleted local item in the region of the original imports *)
+Definition okD26 (x : sp) (m : mst) : bool :=
+  negb (existsb (fun i => is_local i && it_del i) (firstn (origN (get_sp m x)) (s_items (get_sp m x)))).
+
+(* link with the classifiers of CheckReidx.v, which are phrased on a case *)
+Theorem known_D02_link (c : rcase) :
+  known_D02 c = negb (okD02 SF (final_model c) && okD02 SG (final_model c) && okD02 SM (final_model c)).
+Proof.
+  unfold known_D02, okD02, ispace_m, ispace, live_ks. cbn [existsb].
+  repeat match goal with |- context [increasing ?t] => destruct (increasing t) end; reflexivity.
+Qed.
+Theorem known_D06_link (c : rcase) :
+  known_D06 c = negb (okD06 SF (final_model c) && okD06 SG (final_model c) && okD06 SM (final_model c)).
+Proof.
+  unfold known_D06, okD06, origN. cbn [existsb].
+  repeat match goal with |- context [existsb ?f ?t] => destruct (existsb f t) end; reflexivity.
+Qed.
+Corollary not_known_D02 c : known_D02 c = false -> forall x, okD02 x (final_model c) = true.
+Proof.
+  rewrite known_D02_link. intros H x. apply negb_false_iff in H. apply andb_prop in H as [H H3]. apply andb_prop in H as [H1 H2].
+  destruct x; assumption.
+Qed.
+Corollary not_known_D06 c : known_D06 c = false -> forall x, okD06 x (final_model c) = true.
+Proof.
+  rewrite known_D06_link. intros H x. apply negb_false_iff in H. apply andb_prop in H as [H H3]. apply andb_prop in H as [H1 H2].
+  destruct x; assumption.
+Qed.
+
+(* ------------------------------------------------------------------------------------------ *)
+(* strictly increasing lists of N *)
+
+Lemma inc_tail a l : increasing (a :: l) = true -> increasing l = true.
+Proof. destruct l as [|b l]; [reflexivity|]. cbn [increasing]. intros H. apply andb_prop in H as [_ H]. exact H. Qed.
+Lemma inc_lt : forall l a, increasing (a :: l) = true -> forall b, In b l -> (a < b)%N.
+Proof.
+  induction l as [|c l IH]; intros a H b Hb; [contradiction|].
+  cbn [increasing] in H. apply andb_prop in H as [H1 H2]. apply N.ltb_lt in H1.
+  destruct Hb as [->|Hb]; [exact H1|]. pose proof (IH c H2 b Hb). lia.
+Qed.
+Lemma inc_cons a l : (forall b, In b l -> (a < b)%N) -> increasing l = true -> increasing (a :: l) = true.
+Proof.
+  intros H1 H2. destruct l as [|b l]; [reflexivity|]. cbn [increasing]. apply andb_true_intro. split; [|exact H2].
+  apply N.ltb_lt. apply H1. left. reflexivity.
+Qed.
+(* two strictly increasing lists with the same elements are equal *)
+Lemma inc_ext : forall l1 l2, increasing l1 = true -> increasing l2 = true ->
+  (forall k, In k l1 <-> In k l2) -> l1 = l2.
+Proof.
+  induction l1 as [|a l1 IH]; intros [|b l2] H1 H2 E.
+  - reflexivity.
+  - exfalso. apply (proj2 (E b)). left. reflexivity.
+  - exfalso. apply (proj1 (E a)). left. reflexivity.
+  - pose proof (inc_lt _ _ H1) as L1. pose proof (inc_lt _ _ H2) as L2.
+    assert (a = b).
+    { destruct (proj1 (E a) (or_introl eq_refl)) as [Hab|Hab]; [congruence|].
+      destruct (proj2 (E b) (or_introl eq_refl)) as [Hba|Hba]; [exact Hba|].
+      pose proof (L2 _ Hab). pose proof (L1 _ Hba). lia. }
+    subst b. f_equal. apply IH; [exact (inc_tail _ _ H1)|exact (inc_tail _ _ H2)|].
+    intros k. split; intros Hk.
+    + destruct (proj1 (E k) (or_intror Hk)) as [->|Hk']; [|exact Hk']. pose proof (L1 _ Hk). lia.
+    + destruct (proj2 (E k) (or_intror Hk)) as [->|Hk']; [|exact Hk']. pose proof (L2 _ Hk). lia.
+Qed.
+
+(* the positions (as import indices) of the live entries of one kind, and the fingerprints found there *)
+Definition kindlive (code : N) (im : imp) : bool := N.eqb (i_sp im) code && negb (i_del im).
+Fixpoint posP (code : N) (n : nat) (l : list imp) : list N :=
+  match l with
+  | [] => []
+  | a :: t => (if kindlive code a then [N.of_nat n] else []) ++ posP code (S n) t
+  end.
+Definition fpat (imps : list imp) (k : N) : N := match nthN imps k with Some im => i_fp im | None => 0%N end.
+
+Lemma posP_in code : forall l n k,
+  In k (posP code n l) <-> exists j im, k = N.of_nat (n + j) /\ nth_error l j = Some im /\ kindlive code im = true.
+Proof.
+  induction l as [|a t IH]; intros n k; cbn [posP].
+  - split; [contradiction|]. intros [j [im [_ [H _]]]]. destruct j; discriminate.
+  - rewrite in_app_iff, IH. split.
+    + intros [H|[j [im [Hk [Hj Hl]]]]].
+      * destruct (kindlive code a) eqn:Ea; [|contradiction]. destruct H as [<-|[]].
+        exists 0, a. rewrite Nat.add_0_r. auto.
+      * exists (S j), im. split; [rewrite Hk; f_equal; lia|]. auto.
+    + intros [[|j] [im [Hk [Hj Hl]]]].
+      * left. cbn in Hj. inversion Hj; subst a. rewrite Hl. left. rewrite Hk. f_equal. lia.
+      * right. exists j, im. split; [rewrite Hk; f_equal; lia|]. auto.
+Qed.
+Lemma posP_inc code : forall l n, increasing (posP code n l) = true.
+Proof.
+  induction l as [|a t IH]; intros n; cbn [posP]; [reflexivity|].
+  destruct (kindlive code a); cbn [app]; [|apply IH].
+  apply inc_cons; [|apply IH]. intros b Hb. apply posP_in in Hb as [j [im [-> _]]]. lia.
+Qed.
+Lemma posP_fps code : forall l pre,
+  map (fpat (pre ++ l)) (posP code (length pre) l) = map i_fp (filter (kindlive code) l).
+Proof.
+  induction l as [|a t IH]; intros pre; cbn [posP filter]; [reflexivity|].
+  assert (E : pre ++ a :: t = (pre ++ [a]) ++ t) by (rewrite <- app_assoc; reflexivity).
+  assert (Et : map (fpat (pre ++ a :: t)) (posP code (S (length pre)) t) = map i_fp (filter (kindlive code) t)).
+  { rewrite E. replace (S (length pre)) with (length (pre ++ [a])) by (rewrite app_length; cbn; lia). apply IH. }
+  destruct (kindlive code a); cbn [app map]; [|exact Et].
+  f_equal; [|exact Et]. unfold fpat, nthN. rewrite Nat2N.id, nth_error_app_len. reflexivity.
+Qed.
+
+(* the view of the import section the decoder of the model's output gets, restricted to one kind *)
+Lemma model_imports_kind code (imps : list imp) :
+  map snd (filter (fun i => N.eqb (fst i) code) (map (fun i => (i_sp i, i_fp i)) (filter (fun i => negb (i_del i)) imps)))
+  = map i_fp (filter (kindlive code) imps).
+Proof.
+  induction imps as [|a t IH]; [reflexivity|]. unfold kindlive in *. cbn [filter].
+  destruct (i_del a); cbn [negb]; [rewrite andb_false_r; exact IH|].
+  rewrite andb_true_r. cbn [map filter fst]. destruct (N.eqb (i_sp a) code); cbn [map snd]; [f_equal|]; exact IH.
+Qed.
+
+Lemma negb_existsb_false {A} (f : A -> bool) l : negb (existsb f l) = true -> forall i, In i l -> f i = false.
+Proof.
+  intros H i Hi. destruct (f i) eqn:E; [|reflexivity]. exfalso.
+  assert (existsb f l = true) by (apply existsb_exists; exists i; auto). rewrite H0 in H. discriminate.
+Qed.
+
+(* ------------------------------------------------------------------------------------------ *)
+(* 3. one well-formed space: [index_space] in closed form on both branches, and ReidxBind's hypotheses derived *)
+
+Section OneSpace.
+Variable code : N.
+Variable imps : list imp.
+Variable x : space.
+Hypothesis W : wf_space code imps x.
+
+Notation orig := (origN x).
+Notation items := (s_items x).
+
+(* a space never flagged for recalculation is already in the shape recalculate_ids would give it *)
+Lemma pristine_spec : s_recalc x = false -> spec orig items = items.
+Proof.
+  intros Hr. destruct (wf_prist _ _ _ W Hr) as [Ha Hall].
+  assert (Ho : orig = N.to_nat (s_num x)) by (unfold origN; rewrite Ha; lia).
+  unfold spec. rewrite Ho.
+  rewrite (filter_all keepA), (filter_none is_import), (filter_all keepC), (filter_none is_local).
+  - cbn [app]. rewrite app_nil_r. apply firstn_skipn.
+  - intros i Hi. apply In_firstn_nth in Hi as [p [Hp Hn]]. destruct (Hall p i Hn) as [_ Hi].
+    apply import_not_local. apply Hi. exact Hp.
+  - intros i Hi. apply In_skipn_nth in Hi as [p [Hp Hn]]. destruct (Hall p i Hn) as [Hd Hi].
+    assert (Hnot : is_import i = false)
+      by (destruct (is_import i); [exfalso; pose proof (proj1 Hi eq_refl); lia|reflexivity]).
+    unfold keepC. rewrite Hd. unfold is_import in Hnot. destruct (is_local i); [reflexivity|discriminate].
+  - intros i Hi. apply In_skipn_nth in Hi as [p [Hp Hn]]. destruct (Hall p i Hn) as [_ Hi].
+    destruct (is_import i); [|reflexivity]. exfalso. pose proof (proj1 Hi eq_refl). lia.
+  - intros i Hi. apply In_firstn_nth in Hi as [p [Hp Hn]]. destruct (Hall p i Hn) as [Hd Hi].
+    unfold keepA. rewrite Hd. rewrite (proj2 Hi Hp). reflexivity.
+Qed.
+
+(* both branches of index_space *)
+Theorem index_space_wf l mp : index_space x = Ok (l, mp) -> l = spec orig items /\ mp = mapping l.
+Proof.
+  intros H. destruct (s_recalc x) eqn:Hr.
+  - exact (index_space_closed_form x Hr (wf_orig _ _ _ W) l mp H).
+  - unfold index_space in H. rewrite Hr in H. inversion H; subst. rewrite (pristine_spec Hr). split; reflexivity.
+Qed.
+
+(* a well-formed space never trips assert_eq!(len, map.len()) *)
+Lemma lookup_none_notin : forall (acc : list (N * N)) k, lookup acc k = None -> ~ In k (map fst acc).
+Proof.
+  induction acc as [|[k' v'] acc IHa]; intros k Hl Hin; [contradiction|].
+  cbn in Hl, Hin. destruct (N.eqb_spec k k') as [E|Hne]; [discriminate|].
+  destruct Hin as [E|Hin]; [congruence|exact (IHa k Hl Hin)].
+Qed.
+Lemma mapping_from_length : forall l pos acc, NoDup (map it_id l) ->
+  (forall i, In i l -> lookup acc (it_id i) = None) -> NoDup (map fst acc) ->
+  length (mapping_from pos l acc) = length l + length acc.
+Proof.
+  induction l as [|i l IH]; intros pos acc Hnd Hacc Hna; [reflexivity|].
+  cbn [mapping_from map] in *. apply NoDup_cons_iff in Hnd as [Hni Hnd].
+  pose proof (lookup_none_notin _ _ (Hacc i (or_introl eq_refl))) as Hnotin.
+  assert (Hf : filter (fun kv : N * N => negb (N.eqb (fst kv) (it_id i))) acc = acc).
+  { apply filter_all. intros [k v] Hkv. cbn. destruct (N.eqb_spec k (it_id i)) as [E|]; [|reflexivity]. exfalso.
+    apply Hnotin. rewrite <- E. change k with (fst (k, v)). apply in_map. exact Hkv. }
+  rewrite Hf. rewrite IH.
+  - cbn [length]. lia.
+  - exact Hnd.
+  - intros j Hj. cbn [lookup]. destruct (N.eqb_spec (it_id j) (it_id i)) as [E|Hne].
+    + exfalso. apply Hni. rewrite <- E. apply in_map. exact Hj.
+    + apply Hacc. right. exact Hj.
+  - cbn [map fst]. constructor; [exact Hnotin|exact Hna].
+Qed.
+Theorem index_space_total : exists l mp, index_space x = Ok (l, mp).
+Proof.
+  unfold index_space. destruct (s_recalc x); [|eauto].
+  rewrite reorganise_spec_N by exact (wf_orig _ _ _ W). fold orig.
+  assert (E : lenN (spec orig items) = lenN (mapping (spec orig items))).
+  { unfold lenN, mapping. f_equal. rewrite mapping_from_length.
+    - cbn. lia.
+    - apply spec_ids_nodup. exact (wf_ids_nodup _ _ _ W).
+    - reflexivity.
+    - constructor. }
+  rewrite E, N.eqb_refl. eauto.
+Qed.
+
+Lemma spec_incl i : In i (spec orig items) -> In i items.
+Proof.
+  unfold spec. rewrite !in_app_iff. intros [H|[H|[H|H]]]; apply filter_In in H as [H _];
+    [eapply In_firstn_In|eapply In_skipn_In|eapply In_skipn_In|eapply In_firstn_In]; exact H.
+Qed.
+
+Hypothesis ok06 : negb (existsb (fun i => is_import i && it_del i) (skipn orig items)) = true.
+Hypothesis ok26 : negb (existsb (fun i => is_local i && it_del i) (firstn orig items)) = true.
+
+Lemma noD06_of_ok : forall i, In i (skipn orig items) -> is_import i = true -> it_del i = false.
+Proof. intros i Hi Himp. pose proof (negb_existsb_false _ _ ok06 i Hi) as H. cbv beta in H. rewrite Himp in H. exact H. Qed.
+Lemma noD26_of_ok : forall i, In i (firstn orig items) -> is_local i = true -> it_del i = false.
+Proof. intros i Hi Hloc. pose proof (negb_existsb_false _ _ ok26 i Hi) as H. cbv beta in H. rewrite Hloc in H. exact H. Qed.
+
+(* the fingerprints of the live import items of a sub-list are the ones found at their entries *)
+Lemma live_ks_fps : forall L, (forall it, In it L -> In it items) ->
+  map (fpat imps) (live_ks L) = map it_fp (filter (fun i => is_import i && negb (it_del i)) L).
+Proof.
+  induction L as [|a L IH]; intros Hin; [reflexivity|].
+  unfold live_ks in *. cbn [flat_map filter]. rewrite map_app, IH by (intros it Hit; apply Hin; right; exact Hit).
+  unfold is_import, is_local.
+  destruct (it_imp a) as [k|] eqn:Ek; cbn [negb andb]; [|reflexivity].
+  destruct (it_del a) eqn:Ed; cbn [negb map app]; [reflexivity|].
+  f_equal. destruct (In_nth_error _ _ (Hin a (or_introl eq_refl))) as [p Hp].
+  pose proof (wf_link _ _ _ W p a k Hp Ek) as L0. unfold fpat. rewrite L0. reflexivity.
+Qed.
+
+(* the entries carried by the live import items of the index space are exactly the live entries of this kind *)
+Lemma live_ks_set k : In k (live_ks (spec orig items)) <-> In k (posP code 0 imps).
+Proof.
+  unfold live_ks. rewrite in_flat_map, posP_in. split.
+  - intros [it [Hit Hk]]. destruct (it_imp it) as [k0|] eqn:Ek; [|contradiction].
+    destruct (it_del it) eqn:Ed; [contradiction|]. destruct Hk as [<-|[]].
+    destruct (In_nth_error _ _ (spec_incl _ Hit)) as [p Hp].
+    pose proof (wf_link _ _ _ W p it k0 Hp Ek) as L0. rewrite Ed in L0.
+    exists (N.to_nat k0). eexists. split; [cbn; rewrite N2Nat.id; reflexivity|]. split; [exact L0|].
+    unfold kindlive. cbn. rewrite N.eqb_refl. reflexivity.
+  - intros [j [im [Hk [Hj Hl]]]]. cbn in Hk. subst k.
+    unfold kindlive in Hl. apply andb_prop in Hl as [Hsp Hd]. apply N.eqb_eq in Hsp. apply negb_true_iff in Hd.
+    assert (Hn : nthN imps (N.of_nat j) = Some im) by (unfold nthN; rewrite Nat2N.id; exact Hj).
+    destruct (wf_cover _ _ _ W _ im Hn Hsp Hd) as [p [it [Hp Hi]]].
+    pose proof (wf_link _ _ _ W p it _ Hp Hi) as L0. rewrite Hn in L0. inversion L0 as [E]. 
+    assert (Hdel : it_del it = false) by (rewrite E in Hd; exact Hd).
+    exists it. split.
+    + apply spec_keeps_live; [eapply nth_error_In; exact Hp|exact Hdel].
+    + rewrite Hi, Hdel. left. reflexivity.
+Qed.
+
+Hypothesis ok02 : increasing (live_ks (spec orig items)) = true.
+
+(* ReidxBind's hypothesis noD02, derived *)
+Theorem import_order_agrees :
+  map i_fp (filter (kindlive code) imps) = map it_fp (Ipart orig items).
+Proof.
+  assert (E : live_ks (spec orig items) = posP code 0 imps)
+    by (apply inc_ext; [exact ok02|apply posP_inc|exact live_ks_set]).
+  rewrite <- (posP_fps code imps []). cbn [app length]. rewrite <- E.
+  rewrite live_ks_fps by exact spec_incl. rewrite spec_split, filter_app.
+  rewrite (filter_all _ (Ipart orig items)), (filter_none _ (Lpart orig items)).
+  - rewrite app_nil_r. reflexivity.
+  - intros i Hi. destruct (Lpart_locals _ _ noD26_of_ok i Hi) as [Hl _]. rewrite (local_not_import _ Hl). reflexivity.
+  - intros i Hi. destruct (Ipart_imports _ _ noD06_of_ok i Hi) as [Hl Hd]. rewrite Hl, Hd. reflexivity.
+Qed.
+
+(* the binding theorem for a well-formed space: no hypothesis on the import list is left *)
+Theorem space_binding l mp : index_space x = Ok (l, mp) ->
+  forall it, In it items -> it_del it = false ->
+  exists q, lookup mp (it_id it) = Some q /\
+            nth_error (map i_fp (filter (kindlive code) imps) ++ emitted_locals l true) (N.to_nat q) = Some (it_fp it).
+Proof.
+  intros H it Hin Hd. destruct (index_space_wf _ _ H) as [-> ->].
+  exact (live_items_bound orig items (wf_ids_nodup _ _ _ W) noD06_of_ok noD26_of_ok _ import_order_agrees it Hin Hd).
+Qed.
+End OneSpace.
+
+(* ------------------------------------------------------------------------------------------ *)
+(* 3'. the binding theorem for well-formed and for reachable states *)
+
+(* what a decoder of the model's own output sees: the import section ... *)
+Definition model_imports (m : mst) : list (N * N) :=
+  map (fun i => (i_sp i, i_fp i)) (filter (fun i => negb (i_del i)) (m_imports m)).
+(* ... and Wasm's index rule for one kind: the imports of that kind in import-section order, then the locally
+   defined entities the encoder emits for the (reorganised) vector [l] *)
+Definition space_of_model (m : mst) (l : list item) (x : sp) : list N :=
+  map snd (filter (fun i => N.eqb (fst i) (sp_code x)) (model_imports m)) ++ emitted_locals l true.
+
+Lemma ok02_unfold m x l mp : index_space (get_sp m x) = Ok (l, mp) -> okD02 x m = increasing (live_ks l).
+Proof. intros H. unfold okD02, ispace_m. rewrite H. reflexivity. Qed.
+
+Theorem wf_binding m x : wf m ->
+  okD02 x m = true -> okD06 x m = true -> okD26 x m = true ->
+  forall l mp, index_space (get_sp m x) = Ok (l, mp) ->
+  forall it, In it (s_items (get_sp m x)) -> it_del it = false ->
+  exists q, lookup mp (it_id it) = Some q /\ nthN (space_of_model m l x) q = Some (it_fp it).
+Proof.
+  intros W H2 H6 H26 l mp H it Hin Hd.
+  unfold space_of_model, model_imports, nthN. rewrite model_imports_kind.
+  rewrite (ok02_unfold _ _ _ _ H) in H2.
+  destruct (index_space_wf _ _ _ (W x) _ _ H) as [El _]. rewrite El in H2.
+  exact (space_binding _ _ _ (W x) H6 H26 H2 l mp H it Hin Hd).
+Qed.
+
+(* MAIN THEOREM: in every state reached by an edit history from a well-formed base (in particular from every
+   base the checker builds), outside D02 / D06 / D26 every live item's id is mapped to the index at which
+   Wasm's rule finds that very item in the model's own output. *)
+Theorem reachable_binding : forall base h m rets, wf base -> run_pref base h [] = (m, rets, false) ->
+  forall x, okD02 x m = true -> okD06 x m = true -> okD26 x m = true ->
+  forall l mp, index_space (get_sp m x) = Ok (l, mp) ->
+  forall it, In it (s_items (get_sp m x)) -> it_del it = false ->
+  exists q, lookup mp (it_id it) = Some q /\ nthN (space_of_model m l x) q = Some (it_fp it).
+Proof.
+  intros base h m rets Wb Hrun x. exact (wf_binding m x (run_pref_wf _ _ _ _ _ _ Wb Hrun)).
+Qed.
+
+Corollary case_binding (c : rcase) : forall x,
+  okD02 x (final_model c) = true -> okD06 x (final_model c) = true -> okD26 x (final_model c) = true ->
+  forall l mp, index_space (get_sp (final_model c) x) = Ok (l, mp) ->
+  forall it, In it (s_items (get_sp (final_model c) x)) -> it_del it = false ->
+  exists q, lookup mp (it_id it) = Some q /\ nthN (space_of_model (final_model c) l x) q = Some (it_fp it).
+Proof. intros x. exact (wf_binding _ x (wf_final_model c)). Qed.
+
+(* index_space never panics in a reachable state (the assert_eq!(len, map.len()) of recalculate_ids holds) *)
+Theorem wf_index_space_total m x : wf m -> exists l mp, index_space (get_sp m x) = Ok (l, mp).
+Proof. intros W. exact (index_space_total _ _ _ (W x)). Qed.
+
+(* nothing deleted is left in the index space of a well-formed state outside D06 / D26 *)
+Theorem wf_no_deleted_left m x : wf m -> okD06 x m = true -> okD26 x m = true ->
+  forall l mp, index_space (get_sp m x) = Ok (l, mp) -> forall it, In it l -> it_del it = false.
+Proof.
+  intros W H6 H26 l mp H it Hin. destruct (index_space_wf _ _ _ (W x) _ _ H) as [-> _].
+  exact (no_deleted_left _ _ (noD06_of_ok _ H6) (noD26_of_ok _ H26) it Hin).
+Qed.
+
+(* loud failure: an id all of whose carriers are deleted (or that no item carries) has no entry in the id map, so
+   every re-indexed reference to it makes encode panic ("Deleted function!") *)
+Theorem wf_deleted_unmapped m x : wf m -> okD06 x m = true -> okD26 x m = true ->
+  forall l mp, index_space (get_sp m x) = Ok (l, mp) ->
+  forall id, (forall it, In it (s_items (get_sp m x)) -> it_id it = id -> it_del it = true) ->
+  lookup mp id = None.
+Proof.
+  intros W H6 H26 l mp H id Hid. pose proof (wf_no_deleted_left m x W H6 H26 l mp H) as Hnd.
+  destruct (index_space_wf _ _ _ (W x) _ _ H) as [El ->]. apply mapping_absent.
+  intros Hin. apply in_map_iff in Hin as [it [Eid Hit]].
+  pose proof (Hnd it Hit) as Hlive. rewrite El in Hit. apply spec_incl in Hit.
+  rewrite (Hid it Hit Eid) in Hlive. discriminate.
+Qed.
+Corollary wf_deleted_item_unmapped m x : wf m -> okD06 x m = true -> okD26 x m = true ->
+  forall l mp, index_space (get_sp m x) = Ok (l, mp) ->
+  forall it, In it (s_items (get_sp m x)) -> it_del it = true -> lookup mp (it_id it) = None.
+Proof.
+  intros W H6 H26 l mp H it Hin Hd. apply (wf_deleted_unmapped m x W H6 H26 l mp H).
+  intros it' Hin' E.
+  destruct (In_nth_error _ _ Hin) as [p Hp]. destruct (In_nth_error _ _ Hin') as [p' Hp'].
+  pose proof (wf_ids _ _ _ (W x) p it Hp) as E1. pose proof (wf_ids _ _ _ (W x) p' it' Hp') as E2.
+  assert (p = p') by lia. subst p'. congruence.
+Qed.
+
+(* ------------------------------------------------------------------------------------------ *)
+(* 4. in the vocabulary of CheckReidx.v: [designates] on the result of [encode] *)
+
+Lemma encode_ok m dead sites e : encode m dead sites = Ok e ->
+  exists lf mf lg mg lm mm,
+    index_space (m_f m) = Ok (lf, mf) /\ index_space (m_g m) = Ok (lg, mg) /\ index_space (m_m m) = Ok (lm, mm) /\
+    e_imports e = model_imports m /\
+    e_funcs e = emitted_locals lf true /\ e_globals e = emitted_locals lg true /\ e_mems e = emitted_locals lm false.
+Proof.
+  unfold encode. intros H.
+  destruct (index_space (m_f m)) as [[lf mf]|]; [|discriminate].
+  destruct (index_space (m_g m)) as [[lg mg]|]; [|discriminate].
+  destruct (index_space (m_m m)) as [[lm mm]|]; [|discriminate].
+  match type of H with match ?X with _ => _ end = _ => destruct X; [|discriminate] end.
+  inversion H; subst e. exists lf, mf, lg, mg, lm, mm. cbn. repeat split; reflexivity.
+Qed.
+
+(* memories are emitted without the deleted check; with nothing deleted left this is the same list *)
+Lemma emitted_locals_nocheck l : (forall it, In it l -> it_del it = false) -> emitted_locals l false = emitted_locals l true.
+Proof.
+  intros H. unfold emitted_locals. f_equal. apply filter_ext_in. intros i Hi. rewrite (H i Hi). reflexivity.
+Qed.
+
+Theorem encode_designates : forall base h m rets dead sites e,
+  wf base -> run_pref base h [] = (m, rets, false) -> encode m dead sites = Ok e ->
+  forall x, okD02 x m = true -> okD06 x m = true -> okD26 x m = true ->
+  forall l mp, index_space (get_sp m x) = Ok (l, mp) ->
+  forall it, In it (s_items (get_sp m x)) -> it_del it = false ->
+  exists q, lookup mp (it_id it) = Some q /\ designates e x q = Some (it_fp it).
+Proof.
+  intros base h m rets dead sites e Wb Hrun He x H2 H6 H26 l mp H it Hin Hd.
+  pose proof (run_pref_wf _ _ _ _ _ _ Wb Hrun) as W.
+  destruct (wf_binding m x W H2 H6 H26 l mp H it Hin Hd) as [q [Hq Hn]].
+  exists q. split; [exact Hq|].
+  destruct (encode_ok _ _ _ _ He) as [lf [mf [lg [mg [lm [mm [Hf [Hg [Hm [Ei [Ef [Eg Em]]]]]]]]]]]].
+  unfold designates, space_of. rewrite Ei. unfold space_of_model in Hn.
+  destruct x; cbn [get_sp] in H.
+  - rewrite Ef. rewrite H in Hf. inversion Hf; subst. exact Hn.
+  - rewrite Eg. rewrite H in Hg. inversion Hg; subst. exact Hn.
+  - rewrite Em. rewrite H in Hm. inversion Hm; subst.
+    rewrite emitted_locals_nocheck; [exact Hn|]. exact (wf_no_deleted_left m SM W H6 H26 _ _ H).
+Qed.
+
+Corollary case_encode_designates (c : rcase) e :
+  encode (final_model c) (dead_exports (h_ops c)) (sites c) = Ok e ->
+  forall x, okD02 x (final_model c) = true -> okD06 x (final_model c) = true -> okD26 x (final_model c) = true ->
+  forall l mp, index_space (get_sp (final_model c) x) = Ok (l, mp) ->
+  forall it, In it (s_items (get_sp (final_model c) x)) -> it_del it = false ->
+  exists q, lookup mp (it_id it) = Some q /\ designates e x q = Some (it_fp it).
+Proof.
+  intros He x H2 H6 H26 l mp H it Hin Hd.
+  pose proof (wf_final_model c) as W.
+  destruct (wf_binding _ x W H2 H6 H26 l mp H it Hin Hd) as [q [Hq Hn]].
+  exists q. split; [exact Hq|].
+  destruct (encode_ok _ _ _ _ He) as [lf [mf [lg [mg [lm [mm [Hf [Hg [Hm [Ei [Ef [Eg Em]]]]]]]]]]]].
+  unfold designates, space_of. rewrite Ei. unfold space_of_model in Hn.
+  destruct x; cbn [get_sp] in H.
+  - rewrite Ef. rewrite H in Hf. inversion Hf; subst. exact Hn.
+  - rewrite Eg. rewrite H in Hg. inversion Hg; subst. exact Hn.
+  - rewrite Em. rewrite H in Hm. inversion Hm; subst.
+    rewrite emitted_locals_nocheck; [exact Hn|]. exact (wf_no_deleted_left _ SM W H6 H26 _ _ H).
 Qed.
